@@ -612,7 +612,9 @@ Proof.
     + cbn [fst]. constructor; cbn [O.tbl O.regs]; try apply I.
       intros k o H. destruct (oi_ent _ _ I k o H). split; [assumption|rewrite app_length; lia].
     + set (tok := b :: tok'). destruct (O.tget (O.crc64 tok) (O.tbl s)) as [o0|] eqn:Eg; cbn [fst].
-      * apply oinv_delete; [exact I|exact Eg|rewrite app_length; lia].
+      * (* token in use: refused, table and live set untouched *)
+        constructor; cbn [O.tbl O.regs]; try apply I.
+        intros k o H. destruct (oi_ent _ _ I k o H). split; [assumption|rewrite app_length; lia].
       * (* fresh entry, still waiting for its first response *)
         constructor; cbn [O.tbl O.regs]; unfold O.tset.
         -- cbn [map fst]. constructor; [|apply nodup_map_otdel; apply (oi_keys _ _ I)].
